@@ -156,8 +156,20 @@ def run_shard(ctx):
                 t1, s1 = gen_run(rng, words, 3)
                 t2, s2 = gen_run(rng, words, 2)
                 op = rng.choice('+-')
-                text = 'zq = %s\nwv = %s\nzq %s wv' % (t1, t2, op)
-                want = s1 + s2 if op == '+' else s1 - s2
+                form = rng.randrange(4)
+                if form == 0:
+                    text = 'zq = %s\nwv = %s\nzq %s wv' % (t1, t2, op)
+                    want = s1 + s2 if op == '+' else s1 - s2
+                elif form == 1:
+                    text = 'zq = %s\nzq %s' % (t1, t2)                      # a duration held by a name, written next to another one
+                    want = s1 + s2
+                elif form == 2:
+                    text = 'zq = %s\nwv = %s\nzq wv' % (t1, t2)
+                    want = s1 + s2
+                else:
+                    t0, s0 = gen_run(rng, words, 2)
+                    text = 'zq = %s\n%s %s zq %s' % (t1, t0, op, t2)
+                    want = s0 + (s1 + s2) if op == '+' else s0 - (s1 + s2)
                 cls = 'variables'
             items.append((lang, text))
             meta.append((lang, text, cls, want))
